@@ -214,25 +214,73 @@ func (p *Program) newLockset() *lsAnalysis {
 	a := &lsAnalysis{p: p, guards: map[*types.Var]*types.Var{}, needW: map[*types.Var]bool{}, mutexes: map[*types.Var]string{},
 		reqs: map[*ssa.Function][]lockReq{}, acquires: map[*ssa.Function]map[string]bool{}, res: &locksetResult{orderEdges: map[string]map[string]string{}}}
 	for _, g := range guardTable {
-		mu := p.StructField(g.pkg, g.typ, g.mutex)
-		if mu == nil {
-			a.res.violations = append(a.res.violations, fmt.Sprintf("UNRESOLVED guard %s.%s.%s", g.pkg, g.typ, g.mutex))
+		nt := p.NamedType(g.pkg, g.typ)
+		if nt == nil {
+			a.res.violations = append(a.res.violations, fmt.Sprintf("UNRESOLVED guarded type %s.%s", g.pkg, g.typ))
 			continue
 		}
-		a.mutexes[mu] = g.pkg + "." + g.typ + "." + g.mutex
-		for _, f := range g.fields {
-			fv := p.StructField(g.pkg, g.typ, f)
-			if fv == nil {
-				a.res.violations = append(a.res.violations, fmt.Sprintf("UNRESOLVED guarded field %s.%s.%s", g.pkg, g.typ, f))
+		st, ok := nt.Underlying().(*types.Struct)
+		if !ok {
+			continue
+		}
+		// the guard: the struct's only mutex field (found by type, so a rename does not matter)
+		var mu *types.Var
+		for i := 0; i < st.NumFields(); i++ {
+			ts := types.TypeString(st.Field(i).Type(), nil)
+			if strings.HasSuffix(ts, "sync.RWMutex") || strings.HasSuffix(ts, "sync.Mutex") {
+				mu = st.Field(i)
+			}
+		}
+		if mu == nil {
+			a.res.violations = append(a.res.violations, fmt.Sprintf("UNRESOLVED guard of %s.%s", g.pkg, g.typ))
+			continue
+		}
+		a.mutexes[mu] = g.pkg + "." + g.typ + "." + mu.Name()
+		// guarded: every other field that is neither listed as immutable after construction nor of an atomic type
+		immutable := map[string]bool{}
+		for _, f := range immutableFields[g.pkg+"."+g.typ] {
+			immutable[f] = true
+		}
+		for i := 0; i < st.NumFields(); i++ {
+			fv := st.Field(i)
+			if fv == mu || immutable[fv.Name()] || isAtomicType(fv.Type()) {
 				continue
 			}
 			a.guards[fv] = mu
-			if g.useNeedsWrite[f] {
-				a.needW[fv] = true
+			if g.useNeedsWrite != nil && len(g.useNeedsWrite) > 0 {
+				// non-thread-safe container (the LRU): any use needs the exclusive lock
+				if _, isPtr := fv.Type().(*types.Pointer); isPtr {
+					a.needW[fv] = true
+				}
 			}
 		}
 	}
 	return a
+}
+
+// immutableFields: fields that are written only while their object is private to
+// its constructor (checked by immutable-after-construction) and therefore read
+// without a lock.
+var immutableFields = map[string][]string{
+	"cache.httpCache":    {"key", "store"},
+	"cache.httpLRUCache": {},
+	"server.server":      {"logFormat", "addr"},
+	"location.Locations": {},
+}
+
+func isAtomicType(t types.Type) bool {
+	if arr, ok := t.Underlying().(*types.Array); ok {
+		return isAtomicType(arr.Elem())
+	}
+	if p, ok := t.(*types.Pointer); ok {
+		t = p.Elem()
+	}
+	n, ok := t.(*types.Named)
+	if !ok || n.Obj().Pkg() == nil {
+		return false
+	}
+	pp := n.Obj().Pkg().Path()
+	return pp == "go.uber.org/atomic" || pp == "sync/atomic"
 }
 
 // lockCall classifies a call as acquire/release of a guard mutex.
